@@ -94,9 +94,18 @@ def run(c):
     a = np.array(c["m"], dtype=c["dtype"], order=c["order"]); a0 = a.copy()
     t = Tape(None, lazy(random.Random(c["aseed"]), c["mode"]))
     g0 = np.random.get_state()[1].tobytes()
-    r = guarded(lambda: pifs(a, k=c["k"], seed=t), secs=20)
+    # the swap count as the caller holds it: a Python int, a NumPy integer scalar, or a writable 0-d integer array
+    kform = (c["k"] + len(c["m"]) + len(c["m"][0]) + c["aseed"]) % 3
+    kobj = [int, np.int64, lambda v: np.array(v)][kform](c["k"])
+    r = guarded(lambda: pifs(a, k=kobj, seed=t), secs=20)
     out = {"r": [r[0], np.array(r[1]).astype(int).tolist(), str(np.array(r[1]).dtype), r[1] is a] if r[0] == "ok" else list(r),
-           "log": list(t.log), "unmodified": bool((a == a0).all()), "global_same": g0 == np.random.get_state()[1].tobytes()}
+           "log": list(t.log), "unmodified": bool((a == a0).all()), "global_same": g0 == np.random.get_state()[1].tobytes(),
+           "k_after": int(kobj), "kform": kform}
+    if r[0] == "ok" and kform == 2:
+        # a second call with the SAME count object: it performs the same number of swaps (the answers of the first call are replayed)
+        t2 = Tape([z for (_, z) in t.log])
+        r2 = guarded(lambda: pifs(a, k=kobj, seed=t2), secs=20)
+        out["again"] = [r2[0], np.array(r2[1]).astype(int).tolist()] if r2[0] == "ok" else list(r2)[:2]
     return out
 
 
@@ -135,6 +144,12 @@ def oracle(c, o):
         if _v: return _v
     if not o["unmodified"]:
         _v = emit({"why": f"the input matrix (dtype {c['dtype']}) was modified", "cls": "pifs:input-modified"})
+        if _v: return _v
+    if o.get("k_after", c["k"]) != c["k"]:
+        _v = emit({"why": f"permute_incidence_fixed_sums changed the caller's swap count object k={c['k']} (a 0-d array) to {o['k_after']}: a second call with it performs another number of swaps", "cls": "pifs:input-modified"})
+        if _v: return _v
+    if "again" in o and (o["again"][0] != "ok" or o["again"][1] != r[1]):
+        _v = emit({"why": f"a second call with the same matrix, the same k object ({c['k']}) and the same answers returned {o['again'][1]}, the first {r[1]}", "cls": "pifs:k-swaps"})
         if _v: return _v
     if r[3]:
         _v = emit({"why": "the input object itself was returned", "cls": "pifs:input-modified"})
